@@ -3,7 +3,7 @@
 cd "$(dirname "$0")/.."
 for p in C04 C13 C09 C05 C12 C11 C19 C14 C18 C01 C02 C03 C06 C07 C08 C15 C16 C17; do
   t0=$(date +%s)
-  ./check $p --tier thorough --no-evidence > thorough_$p.log 2>&1; rc=$?
+  VERIF_SEED=${VERIF_SEED:-0} ./check $p --tier thorough --no-evidence > thorough_$p.log 2>&1; rc=$?
   echo "$p rc=$rc $(( $(date +%s) - t0 ))s $(tail -1 thorough_$p.log | cut -c1-160)"
   if [ $rc -ne 0 ]; then grep -E "^violation|^    |HARNESS" thorough_$p.log | cut -c1-400 | head -12; fi
 done
